@@ -173,20 +173,19 @@ Proof.
 Qed.
 
 (* frame: a step that rewrites stream [s] only *)
-Lemma Inv_upd t s x ch' tk' tm' :
-  Inv t -> 0 <= s ->
+Lemma Inv_upd t s x ch' cr' tk' tm' :
+  Inv t -> 0 <= s -> cr' = false ->
   NoDup ch' -> (forall j, In j ch' -> 0 <= j) ->
   (forall j, j <> s -> (In j ch' <-> In j (charged t))) ->
   (forall j, j <> s -> tk_of j tk' = tk_of j (taken t)) ->
   sinv (In s ch') (tk_of s tk') x ->
-  Inv {| streams := set_s (streams t) (Z.to_nat s) x; charged := ch'; scrashed := scrashed t; taken := tk'; timeouts := tm' |}.
+  Inv {| streams := set_s (streams t) (Z.to_nat s) x; charged := ch'; scrashed := cr'; taken := tk'; timeouts := tm' |}.
 Proof.
-  intros HI Hs Hnd Hpos Hch Htk Hx. constructor; cbn [scrashed charged taken streams]; try assumption.
-  - exact (I_cr _ HI).
-  - intros i Hi. unfold sget. cbn [streams]. destruct (Z.eq_dec s i) as [->|Hne].
-    + rewrite get_set_same. exact Hx.
-    + rewrite get_set_other by lia. rewrite Htk by congruence.
-      eapply sinv_iff; [|exact (I_s _ HI i Hi)]. symmetry. apply Hch. congruence.
+  intros HI Hs Hcr Hnd Hpos Hch Htk Hx. constructor; cbn [scrashed charged taken streams]; try assumption.
+  intros i Hi. unfold sget. cbn [streams]. destruct (Z.eq_dec s i) as [->|Hne].
+  - rewrite get_set_same. exact Hx.
+  - rewrite get_set_other by lia. rewrite Htk by congruence.
+    eapply sinv_iff; [|exact (I_s _ HI i Hi)]. symmetry. apply Hch. congruence.
 Qed.
 
 (* the common case: the charged list and the history of taken events are unchanged *)
@@ -194,6 +193,232 @@ Lemma Inv_upd_stream t s x :
   Inv t -> 0 <= s -> sinv (In s (charged t)) (tk_of s (taken t)) x -> Inv (upd_stream t s x).
 Proof.
   intros HI Hs Hx. unfold upd_stream. apply Inv_upd; try assumption; try tauto.
+  - exact (I_cr _ HI).
   - exact (I_nd _ HI).
   - exact (I_pos _ HI).
+Qed.
+
+(* ------------------------------------------------------------------------------------------- *)
+(* inversion of [sstep] and the case analysis on one stream's flags                              *)
+
+Ltac s_bnorm :=
+  repeat match goal with
+  | H : _ && _ = true |- _ => apply andb_true_iff in H; destruct H
+  | H : _ || _ = false |- _ => apply orb_false_iff in H; destruct H
+  | H : negb _ = true |- _ => apply negb_true_iff in H
+  | H : negb _ = false |- _ => apply negb_false_iff in H
+  | H : (_ =? _) = true |- _ => apply Z.eqb_eq in H
+  | H : (_ =? _) = false |- _ => apply Z.eqb_neq in H
+  | H : (_ <? _) = true |- _ => apply Z.ltb_lt in H
+  | H : (_ <? _) = false |- _ => apply Z.ltb_ge in H
+  | H : (_ <=? _) = true |- _ => apply Z.leb_le in H
+  | H : (_ <=? _) = false |- _ => apply Z.leb_gt in H
+  | H : Bool.eqb _ _ = true |- _ => apply Bool.eqb_prop in H
+  | H : true = false |- _ => discriminate H
+  | H : false = true |- _ => discriminate H
+  end.
+
+Ltac s_split H :=
+  repeat match type of H with
+  | (if ?c then _ else _) = Some _ => destruct c eqn:?; try discriminate H
+  | match ?x with _ => _ end = Some _ => destruct x eqn:?; try discriminate H
+  end; try discriminate H.
+
+Ltac s_hsimp :=
+  repeat match goal with
+  | H : ?a = ?a -> _ |- _ => specialize (H eq_refl)
+  | H : ?P -> _, H' : ?P |- _ => specialize (H H')
+  | H : true = false -> _ |- _ => clear H
+  | H : false = true -> _ |- _ => clear H
+  | H : ([] <> []) -> _ |- _ => clear H
+  | H : (_ :: _ <> []) -> _ |- _ => specialize (H ltac:(discriminate))
+  | H : _ /\ _ |- _ => destruct H
+  | H : true = false |- _ => discriminate H
+  | H : false = true |- _ => discriminate H
+  | H : [] <> [] |- _ => exfalso; apply H; reflexivity
+  | H : _ :: _ = [] |- _ => discriminate H
+  | H : [] = _ :: _ |- _ => discriminate H
+  | H : [] = range _ _ |- _ => symmetry in H; apply range_nil_inv in H
+  | H : _ :: _ = range _ _ |- _ => symmetry in H; apply range_cons_inv in H; destruct H as (? & ? & ?)
+  | H : _ :: _ = _ :: _ |- _ => injection H as ? ?
+  | H : _ \/ _ |- _ => destruct H
+  end.
+
+Ltac s_zlia := match goal with
+  | |- (_ <= _)%Z => lia | |- (_ < _)%Z => lia | |- @eq Z _ _ => lia | |- (_ <= _ <= _)%Z => lia end.
+Ltac s_leaf1 := first [assumption | reflexivity | discriminate | s_zlia | congruence | tauto ].
+Ltac s_leaf := cbn [app] in *; try solve [ s_leaf1 | repeat split; s_leaf1 ].
+
+
+Definition keep (P : Prop) : Prop := P.
+
+(* open the stream [s] of the label: its invariant, its queue and its s_flags by cases *)
+Ltac s_open HI t s :=
+  let Hs := fresh "Hs" in
+  assert (Hs := I_s _ HI s ltac:(lia));
+  let st := fresh "st" in let Est := fresh "Est" in
+  remember (sget t s) as st eqn:Est in *; clear Est;
+  destruct Hs as [c0 ca ac hq hch hun hna hpop hpend hown hatt hdet hblk htk].
+
+Ltac s_start HI H t s :=
+  unfold sstep in H; cbn [label_stream] in H; cbv zeta in H; fold (sget t s) in H;
+  destruct (scrashed t) eqn:Ecr; [discriminate|]; destruct (s <? 0) eqn:Es; [discriminate|]; s_bnorm;
+  s_open HI t s.
+
+Ltac s_qcases st H :=
+  let qs := fresh "qs" in
+  remember (q st) as qs eqn:Eq in *; destruct qs as [|qx qr]; cbv iota in H.
+
+Ltac s_flag1 f st :=
+  let b := fresh "b" in let E := fresh "E" in remember (f st) as b eqn:E in *; destruct b; s_hsimp.
+Ltac s_flags st :=
+  s_flag1 att st; s_flag1 det st; s_flag1 own st; s_flag1 blk st; s_flag1 popped st; s_flag1 pend st.
+
+Ltac s_norm_goal := unfold mk, set_pend, set_own; cbn [q cur away scommit att det blk popped pend own].
+Ltac s_assert_q Hq' := match goal with |- sinv _ _ ?x =>
+  let T := eval cbn [q cur away scommit att det blk popped pend own] in
+    (q x = range (away x + 1) (cur x) \/
+     (q x = (- scommit x - 1) :: range (away x + 1) (cur x) /\ own x = true /\ away x = scommit x /\ blk x = false)) in
+  assert (Hq' : keep T); [unfold keep|] end.
+Ltac s_auto_q hq :=
+  first [ exact hq
+        | destruct hq as [hq|(hq & ? & ? & ?)]; [left|right; repeat split]; solve [assumption|reflexivity|congruence|discriminate] ].
+Ltac s_finish Hq' :=
+  constructor; cbn [q cur away scommit att det blk popped pend own negb]; intros;
+  first [exact Hq' | s_hsimp; s_leaf].
+Ltac s_absurd_case st := exfalso; s_flags st; cbn [orb andb negb] in *; try discriminate; try congruence; try lia.
+
+Ltac s_crash_case st := match goal with |- Inv (crash _) => s_absurd_case st | _ => idtac end.
+
+Lemma Inv_step t l t' : Inv t -> sstep t l = Some t' -> Inv t'.
+Proof.
+  intros HI H. destruct l as [s seq kind|s|s|s|s seq kind|s|s ne|s seq|s|s seq].
+  - (* SPut *)
+    s_start HI H t s. s_qcases st H. all: s_split H; s_bnorm; injection H as <-.
+    all: apply Inv_upd_stream; [exact HI|lia|]; s_norm_goal; s_assert_q Hq'.
+    1,3: rewrite ?app_comm_cons; subst seq; rewrite range_snoc by lia; destruct hq as [hq|(hq & ? & ? & ?)];
+      [left; rewrite <- hq; reflexivity|right; repeat split; try assumption; try discriminate hq; rewrite hq; reflexivity].
+    all: s_flags st; s_finish Hq'.
+  - (* SCharge *)
+    s_start HI H t s. s_qcases st H. all: s_split H; s_bnorm; try discriminate; injection H as <-.
+    match goal with Hx : existsb _ _ = false |- _ => apply existsb_eqb_false in Hx; rename Hx into Hnc end.
+    apply Inv_upd; [exact HI|lia|reflexivity|apply NoDup_snoc; [exact (I_nd _ HI)|exact Hnc]| | |reflexivity|].
+    + intros j Hj. apply in_app_iff in Hj. destruct Hj as [Hj|[<-|[]]]; [exact (I_pos _ HI j Hj)|lia].
+    + intros j Hj. rewrite in_app_iff. cbn [In]. intuition congruence.
+    + assert (Hc' : In s (charged t ++ [s])) by (apply in_app_iff; right; left; reflexivity).
+      s_norm_goal. s_assert_q Hq'; [s_auto_q hq|]. s_flags st; s_finish Hq'.
+  - (* SPop *)
+    s_start HI H t s. s_split H; s_bnorm; injection H as <-. subst z.
+    match goal with Hx : rev (charged t) = _ |- _ => apply rev_eq_cons in Hx; rename Hx into Hch end.
+    assert (Hnd := I_nd _ HI). rewrite Hch in Hnd. apply NoDup_snoc_inv in Hnd. destruct Hnd as [Hnd Hnc'].
+    assert (Hc : In s (charged t)) by (rewrite Hch; apply in_app_iff; right; left; reflexivity).
+    apply Inv_upd; [exact HI|lia|reflexivity|exact Hnd| | |reflexivity|].
+    + intros j Hj. apply (I_pos _ HI). rewrite Hch. apply in_app_iff. left; exact Hj.
+    + intros j Hj. rewrite Hch, in_app_iff. cbn [In]. intuition congruence.
+    + s_norm_goal. s_assert_q Hq'; [s_auto_q hq|]. s_qcases st Ecr. all: s_flags st; s_finish Hq'.
+  - (* SAttach *)
+    s_start HI H t s. s_qcases st H. all: s_split H; s_bnorm; injection H as <-.
+    all: s_crash_case st.
+    apply Inv_upd_stream; [exact HI|lia|]; s_norm_goal; s_assert_q Hq'; [s_auto_q hq|]. s_flags st; s_finish Hq'.
+  - (* SGet *)
+    s_start HI H t s. s_qcases st H. all: s_split H; s_bnorm; injection H as <-.
+    all: s_crash_case st.
+    + (* a time-out event *)
+      apply Inv_upd; [exact HI|lia|reflexivity|exact (I_nd _ HI)|exact (I_pos _ HI)|tauto|reflexivity|]. s_norm_goal.
+      assert (seq = away st /\ qr = range (seq + 1) (cur st)) as [Hseq Hqr].
+      { destruct hq as [hq|(hq & ? & ? & ?)].
+        - symmetry in hq. apply range_cons_inv in hq. lia.
+        - injection hq as Hx Hr. split; [lia|]. rewrite Hr. f_equal. lia. }
+      s_assert_q Hq'; [left; exact Hqr|]. rewrite Hseq in *. s_flags st; s_finish Hq'.
+    + (* a regular event *)
+      apply Inv_upd; [exact HI|lia|reflexivity|exact (I_nd _ HI)|exact (I_pos _ HI)|tauto| |].
+      { intros j Hj. apply tk_of_cons_other. congruence. }
+      rewrite tk_of_cons_same. s_norm_goal.
+      assert (seq = away st + 1 /\ qr = range (seq + 1) (cur st)) as [Hseq Hqr].
+      { destruct hq as [hq|(hq & ? & ? & ?)].
+        - symmetry in hq. apply range_cons_inv in hq. destruct hq as (Hx & Hr & _). split; [lia|]. rewrite Hr. f_equal. lia.
+        - injection hq as Hx Hr. lia. }
+      s_assert_q Hq'; [left; exact Hqr|].
+      assert (Htk' : seq :: tk_of s (taken t) = rev (range 1 seq)).
+      { rewrite htk, Hseq, range_snoc by lia. rewrite rev_app_distr. reflexivity. }
+      s_flags st; s_finish Hq'.
+  - (* SLeave *)
+    s_start HI H t s. s_qcases st H. all: s_split H; s_bnorm; injection H as <-.
+    all: s_crash_case st.
+    apply Inv_upd_stream; [exact HI|lia|]; s_norm_goal; s_assert_q Hq'; [s_auto_q hq|]. s_flags st; s_finish Hq'.
+  - (* SDetach *)
+    s_start HI H t s. s_split H; s_bnorm; injection H as <-.
+    apply Inv_upd_stream; [exact HI|lia|]; s_norm_goal; s_assert_q Hq'; [s_auto_q hq|]. s_qcases st Ecr. all: s_flags st; s_finish Hq'.
+  - (* SCommit *)
+    s_start HI H t s. s_split H; s_bnorm; injection H as <-.
+    apply Inv_upd_stream; [exact HI|lia|]; s_norm_goal; s_assert_q Hq'.
+    { destruct hq as [hq|(hq & ? & ? & ?)]; [left; exact hq|right]. replace seq with (scommit st) by lia. auto. }
+    s_qcases st Ecr. all: s_flags st; s_finish Hq'.
+  - (* SBlock *)
+    s_start HI H t s. s_qcases st H. all: s_split H; s_bnorm; injection H as <-.
+    apply Inv_upd_stream; [exact HI|lia|]; s_norm_goal; s_assert_q Hq'; [s_auto_q hq|]. s_flags st; s_finish Hq'.
+  - (* STimeout *)
+    s_start HI H t s. s_qcases st H. all: s_split H; s_bnorm; injection H as <-.
+    all: s_crash_case st.
+    apply Inv_upd; [exact HI|lia|reflexivity|exact (I_nd _ HI)|exact (I_pos _ HI)|tauto|reflexivity|]. s_norm_goal. s_assert_q Hq'.
+    { destruct (hblk eq_refl) as (? & _ & ?). destruct hq as [hq|(hq & _)]; [|discriminate].
+      right. symmetry in hq. apply range_nil_inv in hq. rewrite range_empty by lia. subst seq. auto. }
+    s_flags st; s_finish Hq'.
+Qed.
+
+Lemma Inv_reach ls t : srun sinit ls = Some t -> Inv t.
+Proof. intros Hr. exact (srun_invariant Inv Inv_step ls _ _ Inv_init Hr). Qed.
+
+(* the invariant of the stream with table index [i] *)
+Lemma Inv_nat t (i : nat) :
+  Inv t -> sinv (In (Z.of_nat i) (charged t)) (tk_of (Z.of_nat i) (taken t)) (get_s (streams t) i).
+Proof.
+  intros HI. assert (H := I_s _ HI (Z.of_nat i) ltac:(lia)). unfold sget in H. rewrite Nat2Z.id in H. exact H.
+Qed.
+
+Lemma not_In_existsb s l : ~ In s l -> existsb (Z.eqb s) l = false.
+Proof.
+  intros H. destruct (existsb (Z.eqb s) l) eqn:E; [|reflexivity]. exfalso. apply existsb_exists in E.
+  destruct E as (x & Hx & Hs). apply Z.eqb_eq in Hs. subst. exact (H Hx).
+Qed.
+
+Lemma range_length a b : length (range a b) = Z.to_nat (b - a + 1).
+Proof. unfold range. rewrite map_length, seq_length. reflexivity. Qed.
+
+Lemma range_NoDup a b : NoDup (range a b).
+Proof.
+  unfold range. apply FinFun.Injective_map_NoDup; [intros x y Hxy; lia|apply seq_NoDup].
+Qed.
+
+(* ------------------------------------------------------------------------------------------- *)
+(* a stream stays attached until a tryDetach succeeds, and that needs awaySeq = commitSeq        *)
+
+Lemma att_lost_step t l t' i :
+  0 <= i -> sstep t l = Some t' -> att (sget t i) = true -> att (sget t' i) = false ->
+  exists b, l = SDetach i b /\ det (sget t i) = true /\ away (sget t i) = scommit (sget t i).
+Proof.
+  intros Hi H Ha Hb. unfold sstep in H.
+  destruct (scrashed t) eqn:Ecr; [discriminate|]. destruct (label_stream l <? 0) eqn:Es; [discriminate|].
+  destruct l as [s seq kind|s|s|s|s seq kind|s|s ne|s seq|s|s seq]; cbn [label_stream] in Es; cbv zeta in H;
+    fold (sget t s) in H; s_split H; s_bnorm; injection H as <-; unfold sget in Hb;
+    cbn [upd_stream crash streams] in Hb; try congruence;
+    (destruct (Z.eq_dec s i) as [->|Hne];
+     [rewrite get_set_same in Hb; unfold mk, set_pend, set_own in Hb; cbn [att] in Hb; fold (sget t i) in Hb; try congruence
+     |rewrite get_set_other in Hb by lia; fold (sget t i) in Hb; congruence]).
+  exists ne. auto.
+Qed.
+
+Lemma att_lost_run ls : forall t t' i,
+  0 <= i -> srun t ls = Some t' -> att (sget t i) = true -> att (sget t' i) = false ->
+  exists la b lb tm, ls = la ++ SDetach i b :: lb /\ srun t la = Some tm /\
+    att (sget tm i) = true /\ det (sget tm i) = true /\ away (sget tm i) = scommit (sget tm i).
+Proof.
+  induction ls as [|l r IH]; intros t t' i Hi Hr Ha Hb; cbn [srun] in Hr.
+  - inversion Hr; subst. congruence.
+  - destruct (sstep t l) as [t1|] eqn:E; [|discriminate].
+    destruct (att (sget t1 i)) eqn:Ea1.
+    + destruct (IH t1 t' i Hi Hr Ea1 Hb) as (la & b & lb & tm & -> & Hla & Hm).
+      exists (l :: la), b, lb, tm. split; [reflexivity|]. split; [cbn [srun]; rewrite E; exact Hla|exact Hm].
+    + destruct (att_lost_step t l t1 i Hi E Ha Ea1) as (b & -> & Hd & Hac).
+      exists [], b, r, t. split; [reflexivity|]. split; [reflexivity|]. auto.
 Qed.
